@@ -58,6 +58,18 @@ class LeanAudit:
         self.ok = False
 
     def run(self, thorough: bool = False):
+        # checks may run concurrently: serialise everything that can write build products (translator output, lake build) and the audit that
+        # reads them, so that no process ever sees a half-written .olean of another one
+        import fcntl
+        (LEAN / ".lake").mkdir(exist_ok=True)
+        with open(LEAN / ".lake" / "verif-audit.lock", "w") as lk:
+            fcntl.flock(lk, fcntl.LOCK_EX)
+            try:
+                return self._run(thorough)
+            finally:
+                fcntl.flock(lk, fcntl.LOCK_UN)
+
+    def _run(self, thorough: bool = False):
         mod = f"MdpaxV.Props.{self.prop}"
         src = LEAN / "MdpaxV" / "Props" / f"{self.prop}.lean"
         text = src.read_text()
